@@ -72,6 +72,9 @@ def C07(infos: List[EnumInfo], ctx: dict):
         es = info.spec
         if not any(info.group(d) for d in NAME_DERIVES + SER_DERIVES):
             continue
+        if not es.names_modelled():
+            skipped.append({"enum": info.where(), "reason": "raw-identifier variant without explicit spelling (name not modelled)"})
+            continue
         programs += 1
         nt = NameTables(info)
         by_name = {v.name: v for v in es.variants}
